@@ -33,7 +33,8 @@ P = {
   "that an expired timeout permanently disables soft holds.", "Lean 4 proof that no reachable state holds a ready request + Spec judge on implementation traces + correspondence"),
  "C04": ("proto", True,
   "Lean theorems: a reply whose tag does not validate, or whose service is not awaited by that instance, leaves the model state unchanged and emits "
-  "nothing (stray_noop), the tag reader never wraps modulo 2^32, and the tag written for an instance reads back as exactly that (id, serial) "
+  "nothing (C04_stray_line), so the list of input lines with such a line inserted at any position is processed exactly like the list without it "
+  "(C04_history_insert); a service slot somebody waits for is never recycled in any history (C04_slots_alive); the tag reader never wraps modulo 2^32, and the tag written for an instance reads back as exactly that (id, serial) "
   "(C04_tag_readback, C04_tag_injective). On the implementation: histories are run with and without stray replies "
   "(stale serial after id reuse, malformed, wrapped, unknown / not-awaited service) inserted at random positions and must agree byte for byte.",
   "Lean 4 proof of stray-reply inertness + differential runs of the implementation with/without the stray line"),
